@@ -527,11 +527,12 @@ fn execute(case: &Case) -> Exec {
     let sched = sched_of(case);
     let shards = case.extra_usize("shards").unwrap_or(4);
     let hash_seed = case.extra.get("hash_seed").and_then(|v| v.as_u64()).unwrap_or(0);
+    let stack_mb: usize = case.extra_usize("stack_mb").unwrap_or(1);
     let pair_b: Option<String> = case.extra_str("pair_b").map(|h| String::from_utf8_lossy(&unhex(h)).into_owned());
     // bounded liveness: 10^6 scheduling steps for ordinary runs; bulk sweeps make thousands of
     // queries, their budget is 2000 steps per query
     let n_queries: usize = threads.iter().map(|t| t.len()).sum();
-    let max_steps: usize = (1_000_000usize).max(2000 * n_queries);
+    let max_steps: usize = case.extra_usize("max_steps").unwrap_or((1_000_000usize).max(2000 * n_queries));
     let trace = Arc::new(StdMutex::new(Vec::new()));
     let switches = Arc::new(AtomicU64::new(0));
     let (t2, s2) = (trace.clone(), switches.clone());
@@ -544,7 +545,7 @@ fn execute(case: &Case) -> Exec {
             let slot: Arc<StdMutex<Option<RunReport>>> = Arc::new(StdMutex::new(None));
             let slot2 = slot.clone();
             let mut cfg = shuttle::Config::new();
-            cfg.stack_size = 1 << 20;
+            cfg.stack_size = stack_mb << 20;
             cfg.failure_persistence = shuttle::FailurePersistence::None;
             cfg.max_steps = shuttle::MaxSteps::FailAfter(max_steps);
             cfg.silence_warnings = true;
@@ -830,6 +831,14 @@ impl C14 {
         }
     }
 
+    /// deep-chain units (3 cases each)
+    fn chain_units(&self) -> usize {
+        match self.ctx.tier {
+            Tier::Quick => 4,
+            Tier::Thorough => 32,
+        }
+    }
+
     /// (pair units, cases per pair unit)
     fn pair_sizes(&self) -> (usize, usize) {
         match self.ctx.tier {
@@ -955,6 +964,47 @@ fn gen_bulk_case(seed: u64, real_defs: Option<&(String, Vec<String>)>) -> Case {
     c
 }
 
+/// Deep single-inheritance chain (legal, linear in cost): the deepest def is asked first, cold, so
+/// anything that recurses once per level of the `is` chain meets a chain of thousands of levels.
+fn gen_chain_case(seed: u64) -> Case {
+    let rng = Rng::new(seed);
+    let mut wl = rng.fork("workload");
+    let mut kn = rng.fork("knobs");
+    let n = *wl.pick(&[400usize, 3000, 20000]);
+    let mut text = String::from("ver:\"3.0\"\ndef,is\n^marker,\n^val,\n^entity,[^marker]\n^choice,[^marker]\n^d0,[^entity]\n");
+    for i in 1..n {
+        text.push_str(&format!("^d{i},[^d{}]\n", i - 1));
+    }
+    let leaf = format!("d{}", n - 1);
+    let mid = format!("d{}", n / 2);
+    let nthreads = wl.range(1, 3);
+    let mut threads: Vec<Vec<Op>> = Vec::new();
+    for _ in 0..nthreads {
+        let mut ops = Vec::new();
+        for _ in 0..wl.range(1, 4) {
+            // upward queries only: they are linear in the depth of the chain
+            let q = *wl.pick(&["inheritance", "all_supertypes_of", "fits", "fits_entity", "supertypes_of"]);
+            let a = match wl.below(4) {
+                0 => mid.clone(),
+                1 => "d0".to_string(),
+                _ => leaf.clone(),
+            };
+            ops.push(Op { q: q.to_string(), a, b: if q == "fits" { "d0".into() } else { String::new() }, rec: Vec::new() });
+        }
+        threads.push(ops);
+    }
+    let mut c = Case::new("C14", "namespace", text.as_bytes());
+    c.extra.insert("threads".into(), serde_json::to_value(&threads).unwrap());
+    c.extra.insert("shards".into(), (*kn.pick(&[2u64, 16, 64])).into());
+    c.extra.insert("hash_seed".into(), kn.next_u64().into());
+    c.extra.insert("bulk".into(), true.into());
+    c.extra.insert("stack_mb".into(), 8u64.into());
+    // liveness budget linear in the depth: 200 scheduling steps per level and query
+    c.extra.insert("max_steps".into(), (200 * n as u64 * 12 + 1_000_000).into());
+    c.extra.insert("sched".into(), serde_json::to_value(&Sched { mode: "random".into(), seed: kn.next_u64(), depth: 1, trace: vec![] }).unwrap());
+    c
+}
+
 /// Pair case: A, then B = A rewired (same names), sequential symbol queries over every def.
 fn gen_pair_case(seed: u64) -> Case {
     let rng = Rng::new(seed);
@@ -1003,6 +1053,10 @@ impl Engine for C14 {
         for i in 0..self.pair_sizes().0 as u64 {
             u.push(UnitSpec { id: base + i, name: format!("pair:{i}"), isolated: false, exhaustive: false });
         }
+        let base = base + self.pair_sizes().0 as u64;
+        for i in 0..self.chain_units() as u64 {
+            u.push(UnitSpec { id: base + i, name: format!("chain:{i}"), isolated: false, exhaustive: false });
+        }
         u
     }
 
@@ -1017,6 +1071,14 @@ impl Engine for C14 {
                 let mut c = gen_case(mix(&[seed, sub]), Some(d));
                 c.origin = format!("{uname} sub={sub}");
                 Some(c)
+            }));
+        }
+        if unit.name.starts_with("chain:") {
+            let seed = mix(&[self.ctx.seed, fnv1a(b"C14-chain"), unit.id]);
+            return Box::new((0..3u64).map(move |sub| {
+                let mut c = gen_chain_case(mix(&[seed, sub]));
+                c.origin = format!("{uname} sub={sub}");
+                c
             }));
         }
         if unit.name.starts_with("pair:") {
@@ -1055,7 +1117,7 @@ impl Engine for C14 {
 
     fn isolate_every(&self, unit: &UnitSpec) -> Option<u64> {
         // answers must not depend on namespaces queried earlier in the same process
-        if unit.name.starts_with("bulk:") || unit.name == "real-defs" {
+        if unit.name.starts_with("bulk:") || unit.name.starts_with("chain:") || unit.name == "real-defs" {
             None
         } else if unit.name.starts_with("pair:") {
             Some(8)
